@@ -68,10 +68,15 @@ class ImgFn:
         self.loops = {}        # decl id -> dict(name, atom, bound Poly, node, depth)
         self.locals = {}       # decl id -> ('ptr', base, offsetPoly, unit) | Poly
         self.mins = {}         # min atom -> (Poly, Poly)
+        self.bind = {}         # parameter of an inlined helper -> value of the argument
+        self.depth = 0
         self.carry = {}        # carry atom -> dict(var, loop, amount)
         self.order = []
 
     def atom_of(self, did):
+        if did in self.bind:
+            v = self.bind[did]
+            return v if isinstance(v, Poly) else None
         if did in self.loops:
             return Poly.atom(('sym', self.loops[did]['name']))
         p = self.params.get(did)
@@ -81,7 +86,47 @@ class ImgFn:
         return v if isinstance(v, Poly) else None
 
     def ev(self):
-        return Evaluator(self.tu, lambda n, did: self.atom_of(did))
+        return Evaluator(self.tu, lambda n, did: self.atom_of(did), None, self.call_value)
+
+    def call_value(self, n):
+        """value of a call of a small helper of the utility namespace: parameters bound, body = local constants + return"""
+        tu = self.tu
+        if n.get('kind') != 'CallExpr' or self.depth > 3:
+            return None
+        callee = tu.callee_fn(n)
+        if callee is None or tu.body(callee) is None or not callee['q'].startswith(UTIL):
+            return None
+        args = tu.call_parts(n)[2]
+        saved = dict(self.bind), dict(self.locals)
+        self.depth += 1
+        try:
+            for p, a in zip(callee.get('params', []), args):
+                v = self.ev().ev(a)
+                if v is None:
+                    v = self.ptr_value(a)
+                if v is None:
+                    return None
+                self.bind[p['id']] = v
+            for st in tu.kids(tu.body(callee)):
+                k = st.get('kind')
+                if k == 'DeclStmt':
+                    for vd in st.get('inner', ()):
+                        if isinstance(vd, dict) and vd.get('kind') == 'VarDecl' and tu.kids(vd):
+                            v = self.ev().ev(tu.kids(vd)[0])
+                            if v is None:
+                                v = self.min_form(tu.kids(vd)[0])
+                            if v is None:
+                                return None
+                            self.locals[vd['id']] = v
+                elif k == 'ReturnStmt' and tu.kids(st):
+                    v = self.ev().ev(tu.kids(st)[0])
+                    return v if v is not None else self.min_form(tu.kids(st)[0])
+                else:
+                    return None
+            return None
+        finally:
+            self.depth -= 1
+            self.bind, self.locals = saved
 
     def parse_loop(self, n, depth):
         tu = self.tu
@@ -185,6 +230,8 @@ class ImgFn:
                 iv = self.ev().ev(a)
             if bp is not None and iv is not None:
                 res = ('ptr', bp[1], bp[2] + iv, bp[3])
+        elif k == 'DeclRefExpr' and isinstance(self.bind.get(e0.get('referencedDecl', {}).get('id')), tuple):
+            res = self.bind[e0['referencedDecl']['id']]
         elif k == 'DeclRefExpr':
             did = e0.get('referencedDecl', {}).get('id')
             p = self.params.get(did)
@@ -372,6 +419,28 @@ def check_write_image(ctx, tu, f):
                 return
             if k == 'CallExpr' and tu.sd(n).get('q') in ('fwrite', 'std::fwrite'):
                 fwrites.append((n, list(stack)))
+                return
+            if k == 'CallExpr' and tu.sd(n).get('q', '').startswith(UTIL) and tu.callee_fn(n) is not None and \
+                    tu.body(tu.callee_fn(n)) is not None and tu.sd(n).get('ct', 'void') == 'void':
+                callee = tu.callee_fn(n)
+                if img.depth > 3:
+                    raise Undecided('helper nesting too deep')
+                saved = dict(img.bind)
+                img.depth += 1
+                try:
+                    for p_, a in zip(callee.get('params', []), tu.call_parts(n)[2]):
+                        v = img.ptr_value(a)
+                        if v is None:
+                            v = img.ev().ev(a)
+                        if v is None:
+                            raise Undecided('argument `%s` of helper %s has no normal form' % (tu.show(a), callee['q']))
+                        if isinstance(v, tuple) and v[0] == 'alloc':
+                            raise Undecided('allocation passed directly to a helper')
+                        img.bind[p_['id']] = v
+                    walk(tu.body(callee), stack)
+                finally:
+                    img.depth -= 1
+                    img.bind = saved
                 return
             walk_kids(n, stack)
 
@@ -1417,53 +1486,149 @@ def ctor_summary(tu, f, memo, depth=0):
     return out
 
 
+TEL = TR + 'ThreadEventList'
+EVVEC_RX = re.compile(r'^(const )?std::vector<rkcommon::tracing::TraceEvent\b')
+
+
+def on_events(tu, x, names):
+    """x is a call `events.<name>(...)` on the chunk-list member"""
+    if x is None or x.get('kind') != 'CXXMemberCallExpr':
+        return False
+    sd, obj, args = tu.call_parts(x)
+    return sd.get('q', '').split('::')[-1] in names and obj is not None and tu.member_of_this(obj) == 'events'
+
+
+class RecordWalk:
+    """Expands one public record function with the ThreadEventList members it calls (parameters mapped to arguments)
+    and collects the places where a TraceEvent is appended to a chunk."""
+
+    def __init__(self, tu):
+        self.tu = tu
+        self.sites = []       # (call node, fn, env, chain of (call node, fn))
+        self.notes = []
+
+    def resolve(self, e, env, depth=0):
+        """follow parameters of inlined helpers and local aliases to the defining expression"""
+        tu = self.tu
+        while e is not None and depth < 12:
+            depth += 1
+            x = tu.strip(e, casts=True)
+            if x is None:
+                return None, env
+            k = x.get('kind')
+            if k in ('CXXConstructExpr', 'CXXTemporaryObjectExpr') and tu.sd(x).get('rec') == TR + 'TraceEvent' and \
+                    len(tu.kids(x)) == 1 and re.sub(r'\bconst\s+|&', '', tu.sd(tu.strip(tu.kids(x)[0])).get('ct', '')).strip() == TR + 'TraceEvent':
+                e = tu.kids(x)[0]       # copy / move construction of an event from an event
+                continue
+            if k == 'CallExpr' and tu.sd(x).get('q') in ('std::move', 'std::forward') and tu.call_parts(x)[2]:
+                e = tu.call_parts(x)[2][0]
+                continue
+            if k == 'DeclRefExpr':
+                did = x.get('referencedDecl', {}).get('id')
+                if did in env:
+                    e, env = env[did]
+                    continue
+                vd = tu.node(did)
+                if vd is not None and vd.get('kind') == 'VarDecl' and tu.kids(vd):
+                    e = tu.kids(vd)[0]
+                    continue
+            return x, env
+        return None, env
+
+    def walk(self, n, fn, env, chain, depth=0):
+        tu = self.tu
+        k = n.get('kind')
+        if k == 'LambdaExpr':
+            self.notes.append('lambda')
+            return
+        if k == 'CXXMemberCallExpr':
+            sd, obj, args = tu.call_parts(n)
+            nm = sd.get('q', '').split('::')[-1]
+            oct_ = tu.sd(tu.strip(obj)).get('ct', '') if obj is not None else ''
+            if nm in ('push_back', 'emplace_back', 'push_front', 'emplace_front', 'insert', 'emplace') and EVVEC_RX.match(oct_):
+                self.sites.append((n, fn, env, list(chain)))
+            callee = tu.callee_fn(n)
+            if callee is not None and callee.get('rec') == TEL and tu.body(callee) is not None and obj is not None and \
+                    tu.is_this(obj) and depth < 4 and callee['id'] != fn['id']:
+                env2 = dict(env)
+                for p_, a in zip(callee.get('params', []), args):
+                    env2[p_['id']] = (a, env)
+                self.walk(tu.body(callee), callee, env2, chain + [(n, fn)], depth + 1)
+        for c in n.get('inner', ()):
+            if isinstance(c, dict) and c.get('kind'):
+                self.walk(c, fn, env, chain, depth)
+
+
+def unconditional(tu, fn, node):
+    """does the CFG element of `node` lie on every path through fn that returns normally"""
+    g = tu.cfg(fn)
+    if g is None:
+        return False
+    w = g.where(node['id'])
+    if w is None:
+        return False
+    return g.postdominates(w, (g.entry, 0))
+
+
+def is_current_chunk(tu, rw, e, env, depth=0):
+    """does e denote events.back(): directly, through a member returning it, or a local reference"""
+    x, env = rw.resolve(e, env)
+    if x is None or depth > 4:
+        return False
+    if on_events(tu, x, ('back',)):
+        return True
+    if x.get('kind') == 'CXXMemberCallExpr':
+        callee = tu.callee_fn(x)
+        if callee is not None and callee.get('rec') == TEL and tu.cfg(callee) is not None:
+            rets = [r for b, i, r in tu.cfg(callee).stmts() if r.get('kind') == 'ReturnStmt']
+            return bool(rets) and all(tu.kids(r) and on_events(tu, tu.strip(tu.kids(r)[0]), ('back',)) for r in rets)
+    return False
+
+
 def check_recording(ctx, tu):
     R = 'R-C20-4'
-    ctx.describe(R, 'each record call appends exactly one TraceEvent of its own type, built from its arguments, to '
-                 'getCurrentEventList(); getCurrentEventList() returns the last chunk and creates one first when there is none; '
-                 'saveLog walks all threads, chunks and events in order under the registry mutex')
+    ctx.describe(R, 'each record call appends exactly one TraceEvent of its own type, built from its arguments, to the last '
+                 'chunk of the thread (helpers expanded); whoever uses events.back() creates a chunk first when there is none '
+                 'and adds chunks at the end; saveLog walks all threads, chunks and events in order under the registry mutex')
     n = 0
     memo = {}
-    file = 'rkcommon/tracing/Tracing.cpp'
     for name, ety in sorted(EVENT_FNS.items()):
-        fs = [f for f in tu.fns(q=TR + 'ThreadEventList::' + name, dep=False) if tu.cfg(f) is not None]
+        fs = [f for f in tu.fns(q=TEL + '::' + name, dep=False) if tu.cfg(f) is not None]
         if not fs:
-            ctx.broken('%s: anchor ThreadEventList::%s not found' % (R, name))
+            ctx.broken('%s: public record function ThreadEventList::%s not found' % (R, name))
             continue
         f = fs[0]
         n += 1
         inst = 'ThreadEventList::' + name
         keyb = '%s|%s|%s|' % (R, tu.fn_file(f), inst)
-        g = tu.cfg(f)
-        pushes = []
-        for b, i, x in g.stmts():
-            if x.get('kind') == 'CXXMemberCallExpr' and tu.sd(x).get('q', '').split('::')[-1] in ('push_back', 'emplace_back'):
-                pushes.append((b, i, x))
-        if len(pushes) != 1 or g.back_edges():
-            ctx.violation(R, inst, 'appends %d events per call; required exactly one' % len(pushes), tu.fn_loc(f), key=keyb + 'append-count') \
-                if not g.back_edges() and len(pushes) != 1 else ctx.undecided(R, inst, 'loop in a record function', tu.fn_loc(f))
+        rw = RecordWalk(tu)
+        rw.walk(tu.body(f), f, {}, [])
+        if rw.notes or any(tu.cfg(fn_).back_edges() for _, fn_, _, _ in rw.sites if tu.cfg(fn_) is not None) or tu.cfg(f).back_edges():
+            ctx.undecided(R, inst, 'loop or lambda on the recording path', tu.fn_loc(f))
             continue
-        b, i, x = pushes[0]
-        if not g.postdominates((b.id, i), (g.entry, 0)) and not all(g.dominates((b.id, i), (bb, 0)) for bb in
-                                                                      [p for p in g.preds()[g.exit]]):
-            ctx.violation(R, inst, 'the event is appended only on some paths', tu.loc(x), key=keyb + 'append-conditional')
+        if len(rw.sites) != 1:
+            ctx.violation(R, inst, 'appends %d events per call (helpers expanded); required exactly one' % len(rw.sites), tu.fn_loc(f),
+                          key=keyb + 'append-count')
+            continue
+        x, sfn, senv, chain = rw.sites[0]
+        cond = [c for c, cfn in chain + [(x, sfn)] if not unconditional(tu, cfn, c)]
+        if cond:
+            ctx.violation(R, inst, 'the event is appended only on some paths (`%s` is conditional)' % tu.show(cond[0]), tu.loc(cond[0]),
+                          key=keyb + 'append-conditional')
             continue
         sd, obj, args = tu.call_parts(x)
-        o = tu.strip(obj)
-        if o is not None and o.get('kind') == 'DeclRefExpr':
-            # a local reference bound to the current chunk: auto &list = getCurrentEventList();
-            vd = tu.node(o.get('referencedDecl', {}).get('id'))
-            if vd is not None and vd.get('kind') == 'VarDecl' and tu.kids(vd) and '&' in vd.get('type', {}).get('qualType', ''):
-                o = tu.strip(tu.kids(vd)[0])
-        if not (o is not None and o.get('kind') == 'CXXMemberCallExpr' and tu.sd(o).get('q') == TR + 'ThreadEventList::getCurrentEventList'):
-            ctx.violation(R, inst, 'the event is appended to `%s`; required the chunk returned by getCurrentEventList()' % tu.show(obj),
-                          tu.loc(x), key=keyb + 'append-target')
+        if sd.get('q', '').split('::')[-1] not in ('push_back', 'emplace_back'):
+            ctx.violation(R, inst, 'the event is added with `%s`; required at the end of the chunk (order of recording)' % tu.show(x),
+                          tu.loc(x), key=keyb + 'append-position')
             continue
-        ev = tu.strip(args[0], casts=True) if args else None
-        while ev is not None and ev.get('kind') in ('CXXFunctionalCastExpr',):
-            ev = tu.strip(tu.kids(ev)[-1], casts=True)
+        if not is_current_chunk(tu, rw, obj, senv):
+            ctx.violation(R, inst, 'the event is appended to `%s`; required the last chunk of the thread (events.back())'
+                          % tu.show(obj), tu.loc(x), key=keyb + 'append-target')
+            continue
+        ev, eenv = rw.resolve(args[0], senv) if args else (None, senv)
         if ev is None or ev.get('kind') not in ('CXXTemporaryObjectExpr', 'CXXConstructExpr') or tu.sd(ev).get('rec') != TR + 'TraceEvent':
-            ctx.undecided(R, inst, 'the appended value `%s` is not a TraceEvent construction' % tu.show(args[0] if args else None), tu.loc(x))
+            ctx.undecided(R, inst, 'the appended value `%s` is not traced to a TraceEvent construction' % tu.show(args[0] if args else None),
+                          tu.loc(x))
             continue
         ctor = tu.callee_fn(ev)
         cargs = tu.call_parts(ev)[2]
@@ -1472,75 +1637,72 @@ def check_recording(ctx, tu):
             continue
         summ = ctor_summary(tu, ctor, memo)
         good = True
-        # type
         ti = summ.get('type')
-        tnode = tu.strip(cargs[ti]) if isinstance(ti, int) and ti < len(cargs) else None
+        tnode = rw.resolve(cargs[ti], eenv)[0] if isinstance(ti, int) and ti < len(cargs) else None
         tname = tnode.get('referencedDecl', {}).get('name') if tnode is not None and tnode.get('kind') == 'DeclRefExpr' else None
         if tname != ety:
             ctx.violation(R, inst, 'records an event of type %s; required EventType::%s' % (tname, ety), tu.loc(x), key=keyb + 'event-type')
             good = False
-        # name / category / counter value flow from the parameters
         want = {'beginEvent': {'name': 0, 'category': 1}, 'setMarker': {'name': 0, 'category': 1},
                 'setCounter': {'name': 0, 'counterValue': 1}, 'endEvent': {}}[name]
         for fld, pi in sorted(want.items()):
             ai = summ.get(fld)
             src = None
             if isinstance(ai, int) and ai < len(cargs):
-                a = tu.strip(cargs[ai], casts=True)
-                if a is not None and a.get('kind') == 'CXXMemberCallExpr' and \
-                        tu.sd(a).get('q') == TR + 'ThreadEventList::getCachedString':
-                    a = tu.call_parts(a)[2][0]
-                src = tu.ref_decl(a)
+                a, aenv = rw.resolve(cargs[ai], eenv)
+                hops = 0
+                while a is not None and a.get('kind') == 'CXXMemberCallExpr' and hops < 3 and \
+                        tu.sd(a).get('q') == TEL + '::getCachedString':
+                    a, aenv = rw.resolve(tu.call_parts(a)[2][0], aenv)
+                    hops += 1
+                if a is not None and a.get('kind') == 'DeclRefExpr':
+                    src = a.get('referencedDecl', {}).get('id')
             if pi >= len(f['params']) or src != f['params'][pi]['id']:
                 ctx.violation(R, inst, 'field `%s` of the recorded event is not taken from parameter `%s`'
                               % (fld, f['params'][pi]['name'] if pi < len(f['params']) else pi), tu.loc(x), key=keyb + 'field-' + fld)
                 good = False
         if good:
-            ctx.ok(R, inst, 'getCurrentEventList().push_back(TraceEvent(%s, ...)) on every path' % ety, tu.fn_loc(f))
-    # ---- getCurrentEventList
-    fs = [f for f in tu.fns(q=TR + 'ThreadEventList::getCurrentEventList', dep=False) if tu.cfg(f) is not None]
-    if not fs:
-        ctx.broken('%s: anchor getCurrentEventList not found' % R)
-    else:
-        f = fs[0]
+            ctx.ok(R, inst, 'one TraceEvent(%s, ...) appended to events.back() on every path%s'
+                   % (ety, ' (via %s)' % ', '.join(cfn_['q'].split('::')[-1] for _, cfn_ in chain[1:] + [(None, sfn)]) if chain else ''),
+                   tu.fn_loc(f))
+    # ---- chunk management: every member that looks at events.back()
+    managers = []
+    for f in sorted(tu.functions.values(), key=lambda x_: (x_['f'], x_['l'])):
+        if f.get('rec') == TEL and not f['dep'] and tu.cfg(f) is not None and \
+                any(on_events(tu, x_, ('back',)) for b, i, x_ in tu.cfg(f).stmts()):
+            managers.append(f)
+    if not managers:
+        ctx.broken('%s: no member of ThreadEventList uses events.back() (who appends to the current chunk?)' % R)
+    for f in managers:
         n += 1
-        inst = 'ThreadEventList::getCurrentEventList'
-        keyb = '%s|%s|%s|' % (R, tu.fn_file(f), inst)
+        inst = 'ThreadEventList::%s (chunk management)' % f['q'].split('::')[-1]
+        keyb = '%s|%s|ThreadEventList chunk management|' % (R, tu.fn_file(f))
         g = tu.cfg(f)
         good = True
-
-        def on_events(x, names):
-            if x.get('kind') != 'CXXMemberCallExpr':
-                return False
-            sd, obj, args = tu.call_parts(x)
-            return sd.get('q', '').split('::')[-1] in names and obj is not None and tu.member_of_this(obj) == 'events'
-
-        rets = [(b, i, x) for b, i, x in g.stmts() if x.get('kind') == 'ReturnStmt']
-        for b, i, x in rets:
-            v = tu.strip(tu.kids(x)[0]) if tu.kids(x) else None
-            if v is None or not on_events(v, ('back',)):
-                ctx.violation(R, inst, 'returns `%s`; required events.back() (the chunk events are appended to last)' % tu.show(v),
-                              tu.loc(x), key=keyb + 'returns-last')
-                good = False
-        adds = [(b, i, x) for b, i, x in g.stmts() if on_events(x, ('push_back', 'emplace_back', 'push_front', 'emplace_front', 'insert'))]
+        returns_chunk = bool(EVVEC_RX.match(re.sub(r'&', '', f['fty'].split('(')[0]).strip().replace('std::vector<TraceEvent>', 'std::vector<rkcommon::tracing::TraceEvent>')))
+        if returns_chunk:
+            for b, i, x in [(b, i, x) for b, i, x in g.stmts() if x.get('kind') == 'ReturnStmt']:
+                v = tu.strip(tu.kids(x)[0]) if tu.kids(x) else None
+                if v is None or not on_events(tu, v, ('back',)):
+                    ctx.violation(R, inst, 'returns `%s`; required events.back() (the chunk events are appended to last)' % tu.show(v),
+                                  tu.loc(x), key=keyb + 'returns-last')
+                    good = False
+        adds = [(b, i, x) for b, i, x in g.stmts() if on_events(tu, x, ('push_back', 'emplace_back', 'push_front', 'emplace_front', 'insert', 'emplace'))]
         for b, i, x in adds:
             if tu.sd(x).get('q', '').split('::')[-1] not in ('push_back', 'emplace_back'):
                 ctx.violation(R, inst, 'a new chunk is added with `%s`; required at the end of the list (order of chunks = order of '
                               'recording)' % tu.show(x), tu.loc(x), key=keyb + 'chunk-order')
                 good = False
-        # back() must never be evaluated on an empty list: every events.back() is either dominated by the false edge of
-        # events.empty() or by a push_back
-        empties = [b for b in g.blocks.values() if b.cond and on_events(tu.strip(tu.node(b.cond)) or {}, ('empty',)) and len(b.succ) == 2]
+        empties = [b for b in g.blocks.values() if b.cond and on_events(tu, tu.strip(tu.node(b.cond)) or {}, ('empty',)) and len(b.succ) == 2]
         dom = g.dominators()
         for b, i, x in g.stmts():
-            if on_events(x, ('back',)):
+            if on_events(tu, x, ('back',)):
                 safe = any(g.dominates((ab.id, ai), (b.id, i)) for ab, ai, ax in adds)
                 for eb in empties:
                     fe = eb.succ[1]
                     if fe is not None and fe in dom.get(b.id, ()) and fe != eb.succ[0]:
                         safe = True
                 if not safe:
-                    # path-wise: reachable only through push or non-empty edge
                     safe = _back_guarded(g, tu, b.id, i, adds, empties)
                 if not safe:
                     flagged = [bb for bb in g.blocks.values() if bb.cond and tu.ref_decl(tu.node(bb.cond)) is not None]
@@ -1551,11 +1713,12 @@ def check_recording(ctx, tu):
                         ctx.violation(R, inst, 'events.back() can be evaluated while the list of chunks is still empty (first event '
                                       'of a thread)', tu.loc(x), key=keyb + 'back-on-empty')
                     good = False
+                    break
         if not adds:
             ctx.violation(R, inst, 'no chunk is ever created', tu.fn_loc(f), key=keyb + 'no-chunk')
             good = False
         if good:
-            ctx.ok(R, inst, 'creates a chunk when there is none, appends chunks at the end, returns events.back()', tu.fn_loc(f))
+            ctx.ok(R, inst, 'creates a chunk when there is none, appends chunks at the end, uses events.back()', tu.fn_loc(f))
     # ---- saveLog iteration under the mutex
     fs = [f for f in tu.fns(q=TR + 'TraceRecorder::saveLog', dep=False) if tu.cfg(f) is not None]
     if fs:
@@ -1733,7 +1896,27 @@ def check_iteration(ctx, tu, f, R):
                 if isinstance(c, dict) and c.get('kind'):
                     yield from skips(c, conds)
 
-        for sk, conds in skips(entry['body'], []):
+        def emits(st_):
+            """does this statement unconditionally write to the log stream (directly or through a helper)"""
+            x = tu.strip(st_)
+            if x is None or x.get('kind') not in ('CXXOperatorCallExpr', 'CallExpr', 'CXXMemberCallExpr'):
+                return False
+            for y in tu.walk(x):
+                if y.get('kind') == 'DeclRefExpr' and re.search(r'basic_o(f)?stream|basic_ostringstream',
+                                                                tu.sd(y).get('ct', '') or y.get('type', {}).get('qualType', '')):
+                    if y.get('referencedDecl', {}).get('name') not in ('cerr', 'cout', 'clog'):
+                        return True
+            return False
+
+        body_stmts = tu.kids(entry['body']) if entry['body'].get('kind') == 'CompoundStmt' else [entry['body']]
+        found_skips = []
+        emitted = False
+        for st_ in body_stmts:
+            if not emitted:
+                found_skips += list(skips(st_, []))
+            if emits(st_):
+                emitted = True      # the event is in the log from here on; leaving the body later drops nothing
+        for sk, conds in found_skips:
             stack_empty = False
             for c in conds:
                 for x in tu.walk(c):
